@@ -1,8 +1,8 @@
 (* Search/SearchCheck.v — boolean case checkers for the correspondence run
    (harness/props/C13.py).  Each case carries what was observed on the real
    implementation; the model recomputes it under vm_compute. *)
-From PV Require Import Base.Prelude Wire.SeqSet Search.Text Search.Keys Search.Msg
-     Search.Spec Search.Model.
+From PV Require Import Base.Prelude Wire.SeqSet Search.Text Search.Keys Search.SentDate
+     Search.Msg Search.Spec Search.Model.
 
 (* parser level: the SearchKey values the real SearchCommand.parse built for the
    wire form of a program (a frozenset: compared as sets) *)
@@ -35,7 +35,7 @@ Definition chk_query := chk_query_on true.
    (a pool, so that views share them) and the probed views (content id, UID,
    sequence number, flags) with the queries that ran on each. *)
 Record content := mkContent {
-  c_size : N; c_idate : date; c_sdate : option date;
+  c_size : N; c_idate : date; c_rawdate : option str; c_sdate : option date;
   c_headers : list (bytes * str); c_parts : list part;
   c_emailid : bytes; c_threadid : bytes }.
 Definition pool := list (N * content).                  (* content id -> content *)
@@ -53,7 +53,7 @@ Fixpoint build_view (p : pool) (es : list entry) : option view :=
   | (cid, uid, seq, flags) :: r =>
     match lookup p cid, build_view p r with
     | Some c, Some v =>
-      Some (mkMsg uid seq flags (c_size c) (c_idate c) (c_sdate c) (c_headers c)
+      Some (mkMsg uid seq flags (c_size c) (c_idate c) (c_rawdate c) (c_sdate c) (c_headers c)
                   (c_parts c) (c_emailid c) (c_threadid c) :: v)
     | _, _ => None
     end
@@ -92,3 +92,17 @@ Definition chk_disabled (c : list kname * list key * bool) : bool :=
   | Exc 1 => refused
   | _ => false
   end.
+
+(* the date-parser model against the stdlib on one Date: value: (source value,
+   observed date, the value is a plain RFC 5322 date the model must cover) *)
+Definition chk_sent_date (c : str * option date * bool) : bool :=
+  let '(v, obs, must) := c in
+  match parse_sent_date v, obs with
+  | SdUnmodelled, _ => negb must
+  | SdSome d, Some o => date_eqb d o
+  | SdNone, None => true
+  | _, _ => false
+  end.
+
+(* MessageHeader._find_folded's key: (field name as written, key) *)
+Definition chk_header_key (c : bytes * bytes) : bool := bytes_eqb (header_key (fst c)) (snd c).
